@@ -31,6 +31,7 @@ import TableauVerif.Model.Duration
 import TableauVerif.Model.EnumLit
 import TableauVerif.Spec.C03Enum
 import TableauVerif.Spec.C20Dur
+import TableauVerif.Model.Importer
 namespace Driver
 open TableauVerif TableauVerif.Model
 
@@ -414,12 +415,21 @@ def c18 (fn : String) (a : List String) : Option String := do
   | "o.c18.incr", [_, _, obs] => some (if obs == "same" then "holds" else "FAILS")
   | _, _ => none
 
+def imp (fn : String) (a : List String) : Option String := do
+  match fn, a with
+  | "imp.grid", [style, g] =>
+    let rows ← decGrid? g
+    let out := if style == "xlsx" then Importer.xlsxGrid rows else Importer.csvGrid (style == "csv-all") rows
+    some ("rows " ++ encGrid out)
+  | _, _ => none
+
 def dispatch (line : String) : String :=
   match line.splitOn "\t" with
   | [] => "bad-op"
   | fn :: args =>
     let r :=
-      if fn.startsWith "c14." || fn.startsWith "o.c14." then c14 fn args
+      if fn.startsWith "imp." then imp fn args
+      else if fn.startsWith "c14." || fn.startsWith "o.c14." then c14 fn args
       else if fn.startsWith "c07.corrupt" || fn.startsWith "o.c07.corrupt" || fn.startsWith "w.c07." || fn.startsWith "c07.skip" || fn.startsWith "o.c07.skip" then tp fn args
       else if fn.startsWith "c07.book" || fn.startsWith "o.c07.book" then c11 fn args
       else if fn.startsWith "c07." || fn.startsWith "o.c07." then c07 fn args
